@@ -46,7 +46,7 @@ package domain_matcher
 //@   ensures result != nil && fresh(result)
 //@   ensures len(result.toBuildAc) == bitLength && len(result.toBuildTrie) == bitLength && len(result.regexp) == bitLength
 //@   ensures len(result.ac) == bitLength && len(result.trie) == bitLength
-//@   ensures result.err == nil
+//@   ensures result.err == nil && result.log == log
 
 // (ValidDomainChars is a package variable initialised once with NewValidChars and never reassigned)
 //@ func (*AhocorasickSlimtrie).AddSet
